@@ -183,6 +183,8 @@ def run(prop, tier, quick_slices, thorough_slices, nontrivial, drive_profile="mi
     args = ["run"]
     for ef in edge_files:
         args += ["--edges", ef]
+    if prop == "C11":
+        args += ["--probe"]
     args += ["--drive", "400" if thorough else "40", "--seed", str(vlib.seed()), "--steps", "120" if thorough else "60",
              "--profile", drive_profile, "--out", trie]
     hs = vlib.harness(binary, args, timeout=3000)
